@@ -1163,6 +1163,8 @@ func c20Replay(c *lib.Ctx) {
 		c20ReplayStash(c, req, rec)
 	case strings.HasPrefix(req, "hist cfg "):
 		c20ReplayCfg(c, req, rec)
+	case strings.HasPrefix(req, "hist ed "):
+		c20ReplayEditor(c, req)
 	default:
 		fmt.Println("replay file has no usable request")
 	}
@@ -1344,13 +1346,16 @@ func runC20(c *lib.Ctx) {
 
 	nStash, nStashAgree := c20RunStash(c)
 	nCfg, nCfgAgree := c20RunCfg(c)
+	nEd, nEdAgree := c20RunEditor(c)
 	c20Flush(c)
+	c.Ev.Coverage["editor_cases"] = nEd
+	c.Ev.Coverage["editor_cases_in_agreement"] = nEdAgree
 	c.Ev.Coverage["stash_cases"] = nStash
 	c.Ev.Coverage["stash_cases_in_agreement"] = nStashAgree
 	c.Ev.Coverage["settings_cases"] = nCfg
 	c.Ev.Coverage["settings_cases_in_agreement"] = nCfgAgree
-	c.Ev.Coverage["traces_validated_against_impl"] = len(cases) + nStash + nCfg
-	c.Ev.Coverage["agreements"] = agree + nStashAgree + nCfgAgree
+	c.Ev.Coverage["traces_validated_against_impl"] = len(cases) + nStash + nCfg + nEd
+	c.Ev.Coverage["agreements"] = agree + nStashAgree + nCfgAgree + nEdAgree
 	c.Ev.Coverage["rule"] = "case = one session: initial history/history.tmp files + <=60 events (Add/Clear/SetLimit, restart, process death after k file-system steps of an operation); " +
 		"sweep cells (form classes in/outside the encoding guard, initial files, Clear(start,end) grid, limits 0..25 past two compactions with and without a stale tmp, a death at every step of every operation kind, >4096 bytes) are seed independent; composite sessions are random; " +
 		"after every event: memory vs model, file bytes vs model, fresh Load vs model and vs memory; with hooks every hook point's directory is loaded and checked against old/new/prefix-of-new and the model's crashAt k; " +
